@@ -498,7 +498,7 @@ CLAUSE_PROP = {
     "foreign": "C07", "stutter": "C08", "query-changed": "C10", "query-unrepeatable": "C10",
     "res.notunique": "C09", "names": "C09", "lookup": "C09", "fresh": "C09",
     "res.version": "C13", "version": "C13",
-    "lines": "C05", "res.refused": "C05", "res.accepted": "C05", "hdr": "C05",
+    "externals": "C05", "lines": "C05", "res.refused": "C05", "res.accepted": "C05", "hdr": "C05",
     "virtual": "C03", "shadow": "C03",
     "C02.closed": "C02", "C02.sym": "C02", "C02.owner": "C02", "C02.lookup-unlisted": "C02",
     "broken-listing": "C02",
